@@ -601,8 +601,11 @@ def check(pid, tier, seed, replay=None):
         'wall_s': round(time.time() - t0, 2),
         'violations': len(violations),
     }
-    os.makedirs(os.path.join(ROOT, 'evidence'), exist_ok=True)
-    with open(os.path.join(ROOT, 'evidence/%s.json' % pid), 'w') as f:
+    # evidence/ describes runs on /repo; a run against a scratch tree (VERIF_REPO=…: seeded or benign changes) keeps
+    # its record under build/ so that it never replaces the record of the tree of record
+    evdir = os.path.join(ROOT, 'evidence') if os.path.realpath(REPO) == '/repo' else os.path.join(BUILD, 'evidence-scratch')
+    os.makedirs(evdir, exist_ok=True)
+    with open(os.path.join(evdir, '%s.json' % pid), 'w') as f:
         json.dump(ev, f, indent=1)
 
     if replay:
